@@ -216,6 +216,27 @@ pub mod spec_rdata {
         s.len() <= MAX_RDATA_LEN && valid_form(class, ty, s)
     }
 
+    // ------------------------------------------- layout for name compression
+
+    /// How RDATA is cut up for the compressing writer: embedded names that may
+    /// be compressed, embedded names that must not, runs of other octets.
+    pub enum Piece { CName, UName, Fixed(int) }
+
+    /// RFC 3597 section 4: names in the RDATA of the RFC 1035 types (NS, MD, MF,
+    /// CNAME, SOA, MB, MG, MR, PTR, MINFO, MX) may be compressed; no other name
+    /// may (the crate knows two such formats: Chaosnet A and SRV, RFC 2782
+    /// "name compression is not to be used").  Whatever follows the listed
+    /// pieces is other data; formats without names have no pieces.
+    pub open spec fn pieces(class: u16, ty: u16) -> Seq<Piece> {
+        if is_single_name_type(ty) { seq![Piece::CName] }
+        else if ty == T_A && class == CLASS_CH { seq![Piece::UName] }
+        else if ty == T_SOA { seq![Piece::CName, Piece::CName] }
+        else if ty == T_MINFO { seq![Piece::CName, Piece::CName] }
+        else if ty == T_MX { seq![Piece::Fixed(2), Piece::CName] }
+        else if ty == T_SRV && class == CLASS_IN { seq![Piece::Fixed(6), Piece::UName] }
+        else { Seq::empty() }
+    }
+
     // ------------------------------------------------- reading from a message
 
     /// The possibly compressed name at `msg[at..]` (RFC 1035 4.1.4; pointers
